@@ -695,7 +695,8 @@ namespace avel {
 
     [[nodiscard]]
     AVEL_FINL vec16x32f fdim(vec16x32f x, vec16x32f y) {
-        return avel::max(x - y, vec16x32f{0.0f});
+        //x - y is NaN for equal infinities; <cmath>'s fdim returns +0 there
+        return blend(x <= y, vec16x32f{0.0f}, x - y);
     }
 
     [[nodiscard]]
